@@ -170,7 +170,7 @@ def run(tier):
                 "template x generator goal x result/count pattern of MC_C25 x context (plain, catch + follow-up findall, nested in "
                 "findall); simulation: random nestings of all-solutions goals (depth <= 3) as generators of each other; "
                 "distinct = predicate x context x outcome kind x set of constructs in the query")
-    res, vecs0 = generate("MC_C25", "MC_C25_%s.cfg" % tier, workers=8 if quick else 14, timeout=10000)
+    res, vecs0 = generate("MC_C25", "MC_C25_%s.cfg" % tier, workers=8, timeout=20000)
     rep.add_tlc(res)
     once = [v for v in vecs0 if v.get("kind") == "once"]
     if len(once) != 1:
@@ -180,8 +180,8 @@ def run(tier):
     if names != sorted(names, key=lambda s: [ord(ch) for ch in s]) or len(set(names)) != len(names):
         raise common.ToolError("AllSol!NameOrder is not in character-code order")
     vecs = [v for v in vecs0 if v.get("kind") != "once"]
-    sims = common.simulate_parallel("MC_C25", "MC_C25_sim_%s.cfg" % tier, procs=6 if quick else 14,
-                                    num=300 if quick else 6000, depth=4, timeout=10000)
+    sims = common.simulate_parallel("MC_C25", "MC_C25_sim_%s.cfg" % tier, procs=6 if quick else 8,
+                                    num=300 if quick else 1500, depth=4, timeout=20000)
     seen = set(json.dumps(v["q"], sort_keys=True) for v in vecs)
     for sim in sims:
         tlc_ok(sim, "C25 simulation")
